@@ -1112,10 +1112,83 @@ func runCase(ctx context.Context, out *vc.Out, caseID int, n int, branch bool, o
 	}
 }
 
+// wideProbe: a collection with more than twenty fields (field identifiers of one and of two digits): every commit
+// of a field names commits of the SAME field as parents and stands one above the highest of them
+func wideProbe(ctx context.Context, out *vc.Out) {
+	n, err := vnode.NewMem(ctx)
+	must(err)
+	defer n.Close()
+	const nf = 25
+	var fs, in []string
+	for i := 1; i <= nf; i++ {
+		fs = append(fs, fmt.Sprintf("f%02d: Int", i))
+		in = append(in, fmt.Sprintf("f%02d: %d", i, i))
+	}
+	_, err = n.DB.AddSchema(ctx, "type Wide { "+strings.Join(fs, "\n ")+" }")
+	must(err)
+	res := n.GQL(ctx, "mutation { create_Wide(input: {"+strings.Join(in, ", ")+"}) { _docID } }")
+	var cr map[string][]map[string]any
+	must(json.Unmarshal([]byte(res), &cr))
+	id := fmt.Sprint(cr["create_Wide"][0]["_docID"])
+	upd := func(set string) {
+		if r := n.GQL(ctx, fmt.Sprintf(`mutation { update_Wide(docID: "%s", input: {%s}) { _docID } }`, id, set)); !strings.Contains(r, id) {
+			panic("wide probe update: " + r)
+		}
+	}
+	for k := 0; k < 3; k++ {
+		upd(fmt.Sprintf("f20: %d, f22: %d, f11: %d", 100+k, 200+k, 300+k))
+	}
+	upd("f01: 999, f02: 998")
+	upd("f20: 7")
+	line := out.Lines
+	bad := 0
+	for i := 1; i <= nf; i++ {
+		f := fmt.Sprintf("f%02d", i)
+		r := n.GQL(ctx, fmt.Sprintf(`query { commits(docID: "%s", fieldName: "%s") { cid height links { cid name } } }`, id, f))
+		var m struct {
+			Commits []struct {
+				Cid    string
+				Height int
+				Links  []struct{ Cid, Name string }
+			}
+		}
+		must(json.Unmarshal([]byte(r), &m))
+		height := map[string]int{}
+		for _, c := range m.Commits {
+			height[c.Cid] = c.Height
+		}
+		for _, c := range m.Commits {
+			mx := 0
+			for _, l := range c.Links {
+				if l.Name != "_head" {
+					continue
+				}
+				h, own := height[l.Cid]
+				if !own {
+					bad++
+					out.Oracle(line, fmt.Sprintf("[dag-height] collection with %d fields: commit %s of field %s names %s as parent, which is not a commit of that field", nf, c.Cid, f, l.Cid))
+				}
+				if h > mx {
+					mx = h
+				}
+			}
+			if c.Height != mx+1 {
+				bad++
+				out.Oracle(line, fmt.Sprintf("[dag-height] collection with %d fields: commit %s of field %s has height %d, its highest parent has %d", nf, c.Cid, f, c.Height, mx))
+			}
+		}
+	}
+	out.Emit(fmt.Sprintf("wideprobe %d", nf), fmt.Sprintf("bad=%d", bad))
+	out.Count("op:wideprobe")
+}
+
 func main() {
 	f := vc.ParseFlags()
 	out := vc.NewOut(f.OutDir)
 	ctx := context.Background()
+	if f.Replay == "" {
+		wideProbe(ctx, out)
+	}
 	if f.Replay != "" {
 		lines := vc.ReadLines(f.Replay)
 		hdr := strings.Fields(lines[0])
